@@ -130,7 +130,7 @@ func (c *ctx) c16run(cmds []c16cmd, ntx int, buffered bool) {
 	cl := xsens.NewClient(clPort)
 	ctxb, cancel := context.WithCancel(context.Background())
 	done := make(chan struct{})
-	go func() { _ = emu.Receive(ctxb); close(done) }()
+	go func() { protect(func() { _ = emu.Receive(ctxb) }); close(done) }() // a panic of the loop ends it, not the harness
 
 	probeTypes := append([]xsens.DataType{}, supportedTypes...)
 	probeTypes = append(probeTypes, xsens.DataType(0xf8f0))
